@@ -551,8 +551,10 @@ def _captures(n):
     nb = n - na
     a, b = _names("a", 200), _names("b", max(nb, 1))
     used = a[:na] + b[:nb]
-    return ("fn o1() { %s fn o2() { %s fn inner() { return %s; } return inner; } return o2; }" % (
-        "".join("var %s = 1;" % x for x in a), "".join("var %s = 2;" % x for x in b), " + ".join(used) if used else "0"))
+    last = used[-1] if used else "a0"
+    # the body also WRITES the last captured variable (SetUpvalue / compound assignment with the highest index)
+    return ("fn o1() { %s fn o2() { %s fn inner() { var s = %s; %s = s; %s += 1; return s; } return inner; } return o2; }" % (
+        "".join("var %s = 1;" % x for x in a), "".join("var %s = 2;" % x for x in b), " + ".join(used) if used else "0", last, last))
 
 
 COUNT_FAMILIES = [
@@ -567,7 +569,14 @@ COUNT_FAMILIES = [
     ("parameters", 255, lambda n: "fn f(%s) { return p0; }" % ", ".join(_names("p", n))),
     ("lambda_parameters", 255, lambda n: "var f = |%s| p0;" % ", ".join(_names("p", n))),
     ("method_parameters", 255, lambda n: "class K { fn m(self, %s) { return p0; } }" % ", ".join(_names("p", n))),
-    ("locals", 255, lambda n: "fn f() { %s return l0; }" % "".join("var %s = nil;" % x for x in _names("l", n))),
+    ("locals", 255, lambda n: "fn f() { %s l%d = l0; l%d += 1; l%d -= l%d; return l%d; }" % (
+        "".join("var %s = nil;" % x for x in _names("l", n)), n - 1, n - 1, n - 2, n - 1, n - 1)),
+    # every instruction that names a slot, at the top of the slot range: n locals, then a closure capturing the two
+    # highest (Closure descriptors, Get/SetUpvalue), a for loop whose variable and iterator sit above them
+    # (SetLocal of for_statement), break / continue closing captured loop-body locals (CloseUpvalue)
+    ("high_slots", 249, lambda n: "fn f(p) { %s l%d = p; l%d += 1; var g = || { l%d = l%d + 1; l%d += 2; return l%d; }; "
+                                  "for i in 0..3 { var c = i; var h = || c; l%d = i; if i == 1 { continue; } if i == 2 { break; } } return g; }" % (
+        "".join("var %s = nil;" % x for x in _names("l", n)), n - 1, n - 1, n - 1, n - 1, n - 2, n - 1, n - 1)),
     ("block_locals_in_loop", 255, lambda n: "fn f() { while false { %s } }" % "".join("var %s = nil;" % x for x in _names("l", n))),
     ("captured_variables", 256, _captures),
 ]
@@ -1070,6 +1079,11 @@ def run(ctx):
     # the release build: compiling is deterministic, and a debug-build VM (collection at every allocation) needs
     # ~35 ms to start with its built-ins, once per program
     binary = ctx.harness("release")
+    # the fast input path (primitive-int literals) is deliberately outside the cone of props/C04.v: build it here
+    ok_w, wlog = yvlib.coq_make(["theories/VerifierWire.vo"])
+    if not ok_w:
+        ctx.broken.append("coq build of theories/VerifierWire.v failed: " + wlog[-400:])
+        return
     findings = load_findings()
     official = {k.get("class") for k in ctx.known_open()}
     items = []
